@@ -17,6 +17,7 @@ import Fca.Lemmas.DecisionLatticeTrace
 import Fca.Lemmas.DecisionLatticeTree
 import Fca.Lemmas.DecisionLatticeConv
 import Fca.Lemmas.DecisionLatticeConv2
+import Fca.Lemmas.DecisionLatticeCtx
 namespace Fca.C20
 open Fca Fca.DL
 
@@ -139,6 +140,42 @@ theorem dl_predict_eq_tree_eps (t : Tree) (X : Rows) (m : Nat) (eps : Rat)
       ∀ g < nObjects X, preds.getD g 0 = treePredict t (X.getD g []) :=
   dl_predict_eq_tree t X m (nxtEps eps) (wellFormed_of_eps hwf) L hconv order horder
 
+/-! ### predicting a context other than the one the lattice was converted on -/
+
+/-- FULL.  The decision lattice `L` converted on a context `X` predicts as the tree on EVERY context `X'` over the same
+    columns — held-out objects, a test set, a context with more or fewer objects, the empty context — not only on `X`
+    itself: `trace_context(X')` terminates without error, its records are per row of `X'` the nodes of the row's
+    root-to-leaf path carrying the node deltas, and `predict(X')` is the tree's value for every object of `X'`.
+    The only hypothesis about `X'` is `wellFormed t X' m nxt` (rows of width `m`; the number-grid condition, which every
+    float64 table meets when `nxt = nextafter`); `X` needs no hypothesis beyond the conversion having succeeded.
+    `dl_predict_eq_tree` is the instance `X' = X`.  (What is read again from the concepts of `X` during the trace is
+    only their `support`, to order the worklist; the order does not change the records.) -/
+theorem dl_predict_other_context (t : Tree) (X X' : Rows) (m : Nat) (nxt : Rat → Rat)
+    (hwf' : wellFormed t X' m nxt = true) (L : DLat) (hconv : fromDecisionTree t X m nxt = .ok L)
+    (order : List GenRec → List GenRec) (horder : ∀ l, (order l).Perm l) :
+    ∃ recs preds, traceContext L.lat X' m order = .ok recs ∧
+      tracePathOK t X' recs = true ∧ traceKeysOK t L.decisions recs = true ∧
+      predict L X' m order = .ok preds ∧ preds.length = nObjects X' ∧
+      ∀ g < nObjects X', preds.getD g 0 = treePredict t (X'.getD g []) := by
+  obtain ⟨recs, htrace, hpath, hkeys⟩ := tracePathOK_of_conv_ctx t X X' m nxt L hwf' hconv order horder
+  obtain ⟨preds, h1, h2, h3⟩ := predict_of_trace t X' m nxt hwf' L order recs htrace hkeys hpath
+  exact ⟨recs, preds, htrace, hpath, hkeys, h1, h2, h3⟩
+
+/-- FULL, unconditional form of the above: a tree fitted on (rows of) `X` is converted without an exception, and the
+    result — and, by `dl_scale`, each of its multiples and quotients, scaled — predicts the tree's value for every
+    object of every well-formed context `X'`. -/
+theorem dl_converted_predicts_anywhere (t : Tree) (X X' : Rows) (m : Nat) (nxt : Rat → Rat)
+    (hwf : wellFormed t X m nxt = true) (hfit : fitted t X = true) (hwf' : wellFormed t X' m nxt = true)
+    (order : List GenRec → List GenRec) (horder : ∀ l, (order l).Perm l) (c : Rat) :
+    ∃ L preds, fromDecisionTree t X m nxt = .ok L ∧ predict L X' m order = .ok preds ∧
+      preds.length = nObjects X' ∧ (∀ g < nObjects X', preds.getD g 0 = treePredict t (X'.getD g [])) ∧
+      predict (mul L c).2 X' m order = .ok (preds.map (· * c)) := by
+  obtain ⟨L, hL⟩ := conversion_ok hwf hfit
+  obtain ⟨_, preds, _, _, _, h1, h2, h3⟩ := dl_predict_other_context t X X' m nxt hwf' L hL order horder
+  refine ⟨L, preds, hL, h1, h2, h3, ?_⟩
+  rw [(dl_scale L X' m order c).1, h1]
+  rfl
+
 /-! ### non-vacuity: a concrete fitted tree (5 nodes, depth 2) meets every hypothesis — in both modes -/
 
 private def exT : Tree :=
@@ -165,6 +202,22 @@ example : (match fromDecisionTree exT exXulp 2 exNxt with
     | .ok L =>
       (match traceContext L.lat exXulp 2 id with
        | .ok recs => traceKeysOK exT L.decisions recs && tracePathOK exT exXulp recs && decide (recs.length = 5)
+       | .error _ => false)
+    | .error _ => false) = true := by decide +kernel
+
+/-- a context of held-out objects only (none of the rows the tree was grown on): on each threshold, one float64 ulp
+    above each threshold, and far away -/
+private def exXnew : Rows :=
+  [[5/2, 0], [5/2 + 1 / 2251799813685248, 0], [1/2, 7], [1/2 + 1 / 9007199254740992, 7], [-100, 3], [100, 3]]
+
+example : wellFormed exT exXnew 2 exNxt = true := by decide +kernel
+example : wellFormed exT [] 2 exNxt = true := by decide +kernel
+
+/-- converted on `exX`, traced on `exXnew`: all five nodes are reached, the trace is path-exact -/
+example : (match fromDecisionTree exT exX 2 exNxt with
+    | .ok L =>
+      (match traceContext L.lat exXnew 2 id with
+       | .ok recs => traceKeysOK exT L.decisions recs && tracePathOK exT exXnew recs && decide (recs.length = 5)
        | .error _ => false)
     | .error _ => false) = true := by decide +kernel
 
